@@ -2,6 +2,7 @@
 import itertools
 import numpy as np
 from verif.units import CUnit, BoundedUnit
+from verif.tunits import repo_module
 import contracts  # noqa
 
 LEVEL = "other"
@@ -84,6 +85,9 @@ def bounded(ctx):
     joined[1::2, 1] = 1
     cases.append(joined)
     cases.append((rng.rand(300, 520) < 0.14).astype(np.uint8))
+    spf = repo_module("ImageD11.sparseframe")
+    glue_budget = [400]
+    rng.shuffle(cases)          # the glue budget then samples all families
     for mask in cases:
         ns, nf = mask.shape
         data = mask.astype(np.float32) * 2.0
@@ -125,6 +129,18 @@ def bounded(ctx):
                     ok = (n == n0) and same_partition(full * mask, l0) and (full[mask == 0] == 0).all()
                     if not ok:
                         fails.append(dict(name="%s (%s)" % (nm, tag), mask=mask.tolist(), got_n=int(n), want_n=int(n0), labels=full.tolist()))
+        # the python glue on a sparse_frame object (sparseframe.sparse_connected_pixels): same partition, nlabel stored in the frame
+        if mask.any() and glue_budget[0] > 0 and mask.shape[0] < 65535:
+            glue_budget[0] -= 1
+            si, sj = np.nonzero(mask)
+            fr = spf.sparse_frame(si, sj, mask.shape, itype=np.uint16)
+            fr.set_pixels("intensity", data[si, sj].astype(np.float32), {})
+            ng = spf.sparse_connected_pixels(fr, threshold=1.0)
+            ev += 1
+            full = np.zeros(mask.shape, int)
+            full[si, sj] = fr.pixels["connectedpixels"]
+            if not (ng == n0 and same_partition(full * mask, l0)):
+                fails.append(dict(name="sparseframe.sparse_connected_pixels", mask=mask.tolist(), got_n=int(ng), want_n=int(n0)))
         if len(samples) < 3 and mask.sum() > 3:
             samples.append(dict(mask=mask.tolist(), n=int(n0)))
         if len(fails) > 5:
